@@ -20,6 +20,10 @@ func GetHash
 // object invariant: the counted size is the length of the stream the underlying hash has seen, under the named algorithm
 pure func hasherOK(dh *Hasher) bool reads heap { dh != nil && dh.hash != nil && dh.size == len(dh.hash.stream) && algNum(dh.name) != 0 && algOf(dh.hash) == algNum(dh.name) }
 
+// ... and it binds every method of the type, also those written after this contract: a method without a contract of its
+// own is verified against "requires hasherOK / ensures hasherOK" (no other way to feed the hash may bypass the count)
+typeinv Hasher dh: hasherOK(dh)
+
 func NewHasher
   ensures algNum(name) != 0 ==> result1 == nil && fresh(result0) && hasherOK(result0) && result0.hash.stream == "" && result0.name == name && fresh(result0.hash)
   ensures algNum(name) == 0 ==> result1 != nil && result0 == nil
@@ -77,6 +81,6 @@ func NewHasherReaders
     invariant forall i int, j int :: 0 <= i && i < j && j <= rangeindex ==> hashers[i] != hashers[j] && hashers[i].hash != hashers[j].hash
     decreases len(hashes) - rangeindex
 
-property C12: GetHash, NewHasher, (*Hasher).Name, (*Hasher).Write, (*Hasher).Size, (*Hasher).Sum, NewHasherWriter, NewHasherReader, NewHasherWriters, NewHasherReaders
+property C12: typeinv Hasher, GetHash, NewHasher, (*Hasher).Name, (*Hasher).Write, (*Hasher).Size, (*Hasher).Sum, NewHasherWriter, NewHasherReader, NewHasherWriters, NewHasherReaders
 
 @*/
